@@ -457,7 +457,8 @@ fn map_json(m: &BTreeMap<String, u64>) -> J {
 pub fn write_evidence(check: &dyn Check, tier: Tier, verif_seed: u64, out: &Outcome, n_violations: usize, known_hits: &BTreeMap<String, u64>, path: &str) {
     let st = &out.stats;
     let wall = out.wall.as_secs_f64();
-    let samples: Vec<J> = st.samples.iter().map(|(k, (e, j))| J::obj().set("kind", k.as_str()).set("episode", *e).set("case", j.clone())).collect();
+    // at most 12 kinds, in key order: the choice must not depend on which worker saw what first
+    let samples: Vec<J> = st.samples.iter().take(12).map(|(k, (e, j))| J::obj().set("kind", k.as_str()).set("episode", *e).set("case", j.clone())).collect();
     let coverage = J::obj()
         .set("evaluations", st.evaluations)
         .set("distinct_nontrivial", st.sigs.len())
